@@ -10,7 +10,7 @@ pub mod case;
 pub mod oracle;
 pub mod run;
 
-use case::{adj_above_guard, Case, Col, LabelKind, Layout};
+use case::{adj_above_guard, Case, Col, LabelKind, Layout, WKind, SCALES};
 use proptest::prelude::*;
 use vengine::{enum_sub, prop_sub, Obs, Property, Tier};
 
@@ -31,6 +31,18 @@ fn classify(c: &Case, obs: &mut Obs) {
         LabelKind::Str => "label_string",
     });
     obs.class(if c.weights.is_some() { "weighted" } else { "unweighted" });
+    if c.weights.is_some() {
+        obs.class(match c.wkind {
+            WKind::Dyadic => "weights_dyadic",
+            WKind::Real => "weights_real_valued",
+            WKind::NearTie => "weights_near_tie",
+        });
+        let s = c.scale();
+        obs.class_if(s < 1e-4, "weight_scale_below_1e-4");
+        obs.class_if(s > 1e2, "weight_scale_above_1e2");
+        obs.class_if(!c.weights_exact(), "weights_inexact_in_f32");
+        obs.class_if((c.min_weight_leaf as f64) < 0.4 * s || (c.min_weight_leaf as f64) > 6.0 * s, "min_weight_leaf_off_weight_scale");
+    }
     obs.class_if(c.cols.iter().any(|k| matches!(k, Col::Const(_))), "constant_feature");
     obs.class_if(c.cols.iter().any(|k| matches!(k, Col::Fine)), "fine_grid_feature");
     obs.class_if(c.has_adjacent(), "adjacent_floats");
@@ -107,6 +119,9 @@ enum Family {
     AdjFinite,
     /// at least one column of consecutive floats; max_depth(None)
     AdjUnbounded,
+    /// grid columns, large inexact weights (x 2^10 .. 1e6) and a min_weight_leaf far below their scale:
+    /// the stratum in which a rounding residue of the f32 weight sums can pass for a non-empty side
+    Residue,
 }
 
 fn col_strategy(fam: Family, first: bool) -> BoxedStrategy<Col> {
@@ -117,7 +132,7 @@ fn col_strategy(fam: Family, first: bool) -> BoxedStrategy<Col> {
     ];
     let adj = (0u8..6).prop_map(|base| Col::Adj { base });
     match fam {
-        Family::Grid => prop_oneof![
+        Family::Grid | Family::Residue => prop_oneof![
             7 => grid,
             2 => (-2i8..=2).prop_map(Col::Const),
             1 => Just(Col::Fine),
@@ -143,8 +158,8 @@ struct RawRow {
 
 fn case_strategy(fam: Family, tier: Tier) -> impl Strategy<Value = Case> {
     let nmax: BoxedStrategy<usize> = match (fam, tier) {
-        (Family::Grid, Tier::Quick) => prop_oneof![2 => Just(8usize), 4 => Just(25), 3 => Just(60)].boxed(),
-        (Family::Grid, Tier::Thorough) => {
+        (Family::Grid | Family::Residue, Tier::Quick) => prop_oneof![2 => Just(8usize), 4 => Just(25), 3 => Just(60)].boxed(),
+        (Family::Grid | Family::Residue, Tier::Thorough) => {
             prop_oneof![4 => Just(8usize), 8 => Just(25), 6 => Just(60), 1 => Just(300)].boxed()
         }
         (_, Tier::Quick) => prop_oneof![2 => Just(5usize), 3 => Just(12)].boxed(),
@@ -152,7 +167,7 @@ fn case_strategy(fam: Family, tier: Tier) -> impl Strategy<Value = Case> {
     };
     let rows = nmax.prop_flat_map(|m| {
         proptest::collection::vec(
-            (proptest::collection::vec(any::<u8>(), 4), any::<u8>(), any::<u8>(), 0u8..4)
+            (proptest::collection::vec(any::<u8>(), 4), any::<u8>(), any::<u8>(), any::<u8>())
                 .prop_map(|(codes, noise, flip, weight)| RawRow { codes, noise, flip, weight }),
             1..=m,
         )
@@ -164,7 +179,7 @@ fn case_strategy(fam: Family, tier: Tier) -> impl Strategy<Value = Case> {
         col_strategy(fam, false),
     );
     let depth: BoxedStrategy<Option<u8>> = match fam {
-        Family::Grid => prop_oneof![
+        Family::Grid | Family::Residue => prop_oneof![
             3 => Just(None),
             1 => Just(Some(0u8)),
             2 => Just(Some(1)),
@@ -218,9 +233,15 @@ fn case_strategy(fam: Family, tier: Tier) -> impl Strategy<Value = Case> {
             1 => Just(Layout::ReversedRows),
         ]
     };
-    let queries = (queries, layout(), layout());
+    // weight model: kind, global scale factor, and whether min_weight_leaf lives on the same scale
+    let wmodel = (
+        prop_oneof![5 => Just(WKind::Dyadic), 3 => Just(WKind::Real), 3 => Just(WKind::NearTie)],
+        prop_oneof![8 => Just(0u8), 6 => 1u8..=5, 8 => 6u8..=10],
+        prop_oneof![5 => Just(true), 1 => Just(false)],
+    );
+    let queries = (queries, layout(), layout(), wmodel);
     (rows, cols, hyper, shape, queries).prop_map(move |(rows, cols, hyper, shape, queries)| {
-        let (queries, layout, qlayout) = queries;
+        let (queries, layout, qlayout, (wkind, wscale, mwl_scaled)) = queries;
         let (p, r, k, label, ymode, weighted, f32_) = shape;
         let k = if label == LabelKind::Bool { 2 } else { k };
         let cols: Vec<Col> = [cols.0, cols.1, cols.2, cols.3][..p].to_vec();
@@ -255,8 +276,18 @@ fn case_strategy(fam: Family, tier: Tier) -> impl Strategy<Value = Case> {
                 }
             })
             .collect();
-        let weights = if weighted { Some(rows.iter().map(|r| r.weight).collect()) } else { None };
         let (entropy, max_depth, min_weight_split, min_weight_leaf, min_impurity_decrease) = hyper;
+        let (weighted, wkind, wscale, mwl_scaled) = if fam == Family::Residue {
+            let ws = [9u8, 10, 4, 5][wscale as usize % 4];
+            (true, wkind, if wkind == WKind::Dyadic && ws <= 5 { 10 } else { ws }, false)
+        } else if !weighted {
+            (false, WKind::Dyadic, 0, true)
+        } else {
+            // large inexact weights with a min_weight_leaf off their scale belong to the `weight_residue` sub-check
+            (true, wkind, wscale, mwl_scaled || residue_risk(wkind, wscale))
+        };
+        let min_weight_leaf = if weighted && mwl_scaled { min_weight_leaf * SCALES[wscale as usize] as f32 } else { min_weight_leaf };
+        let weights = if weighted { Some(rows.iter().map(|r| r.weight).collect()) } else { None };
         let queries: Vec<Vec<u8>> = queries
             .iter()
             .map(|qr| {
@@ -286,10 +317,19 @@ fn case_strategy(fam: Family, tier: Tier) -> impl Strategy<Value = Case> {
             min_weight_leaf,
             min_impurity_decrease,
             queries,
+            wkind,
+            wscale,
             layout,
             qlayout,
         }
     })
+}
+
+/// weights that are large and do not sum exactly in f32: with a min_weight_leaf off their scale the
+/// rounding residue of a running side weight can exceed min_weight_leaf
+fn residue_risk(wkind: WKind, wscale: u8) -> bool {
+    let i = wscale as usize % SCALES.len();
+    SCALES[i] > 1.0 && !(wkind == WKind::Dyadic && i <= 5)
 }
 
 const LAYOUTS: [Layout; 5] =
@@ -319,10 +359,20 @@ fn enumerate(col: Col, vals: u8, labs: u8, nmax: usize, depths: &[Option<u8>], b
             let mws = [1f32, 2.0, 2.5, 5.0, 1.5, 3.5, 2.0, 4.25][h % 8];
             let mwl = [1f32, 0.5, 2.0, 0.75, 1.5, 1.0, 2.25][(h / 8) % 7];
             let mid = [1e-5f64, 0.01, 0.2, 1e-5][(h / 56) % 4];
-            let weights = if (h / 5) % 2 == 1 {
-                Some((0..n).map(|i| ((h / 10 + i * 3) % 4) as u8).collect())
+            let weights: Option<Vec<u8>> = if (h / 5) % 2 == 1 {
+                Some((0..n).map(|i| ((h / 10 + i * 3) % 251) as u8).collect())
             } else {
                 None
+            };
+            let (wkind, wscale) = if weights.is_some() {
+                ([WKind::Dyadic, WKind::NearTie, WKind::Real][(h / 19) % 3], [0u8, 7, 2, 10, 0, 6, 5, 8][(h / 23) % 8])
+            } else {
+                (WKind::Dyadic, 0)
+            };
+            let mwl = if weights.is_some() && ((h / 29) % 4 != 0 || residue_risk(wkind, wscale)) {
+                mwl * SCALES[wscale as usize] as f32
+            } else {
+                mwl
             };
             out.push(Case {
                 f32_: if both_types { (h / 7) % 2 == 0 } else { true },
@@ -337,6 +387,8 @@ fn enumerate(col: Col, vals: u8, labs: u8, nmax: usize, depths: &[Option<u8>], b
                 min_weight_leaf: mwl,
                 min_impurity_decrease: mid,
                 queries: vec![vec![(h % 8) as u8], vec![((h / 8) % 8) as u8]],
+                wkind,
+                wscale,
                 layout: LAYOUTS[(h / 13) % 5],
                 qlayout: LAYOUTS[(h / 17) % 5],
             });
@@ -350,7 +402,7 @@ pub fn property() -> Property {
         id: "C14",
         rule: "case = labelled dataset in integer codes (n 1..=60, thorough <=300; p 1..=4; columns: small grids with step 1/0.5/0.25, constant, \
                fine grid around linfa's 1e-5 equal-value guard, consecutive floats f32>=128 / f64>=2^37 whose midpoint rounds onto a sample), \
-               2..=6 classes as usize/bool/String, labels random or a noisy function of the features, optional dyadic weights, both criteria, \
+               2..=6 classes as usize/bool/String, labels random or a noisy function of the features, optional sample weights (dyadic / real-valued / near-tie, global factor 1e-9..1e6 or a power of two), both criteria, \
                max_depth None/0/1/2/3/5(/12), min_weight_split 1/1.5/2/2.5/3.5/4.25/5/10, min_weight_leaf 0.5/0.75/1/1.5/2/2.25/5, min_impurity_decrease 1e-5/0.01/0.2, \
                plus query rows on half steps; training and query records in one of five memory layouts (row-major owned, column-major owned, transposed view of a features-by-samples buffer, strided view skipping junk rows, reversed rows; owned layouts fitted through Dataset, views through DatasetView); exhaustive one-feature strata (3 grid values x 3 labels, n<=5 quick / 6 thorough; 4 consecutive floats at 200 x 2 labels, n<=5/6; 6 consecutive floats across the 256 binade x 2 labels, n<=4/5; hyper-parameters cycle through a fixed table). \
                Non-trivial = fitted tree has >= 2 split nodes, or a reached leaf has a weighted tie for the mode, or the case contains a \
@@ -358,7 +410,8 @@ pub fn property() -> Property {
         assumptions: vec![
             "min_weight_leaf = 0 (assert inside gini_impurity), min_impurity_decrease < epsilon (rejected by check()), NaN/inf features and empty datasets are outside the generated domain".into(),
             "min_weight_split is compared with the number of training rows reaching a node (as the statement says), not with their weight".into(),
-            "sample weights are dyadic (0.5, 1, 2, 4) so class weights, modes and the min_weight_leaf comparison are exact".into(),
+            "sample weights: dyadic (0.5, 1, 2, 4), real-valued ((20..120)/61) or near-tie (1 + 0..84 ulps), times a global factor 1, 2^-30..2^20 or 1e-9..1e6; min_weight_leaf on the same scale (5 of 6 cases) or not. Reference totals are f64 sums of the f32 weights handed to linfa. Dyadic weights times a power of two sum exactly in f32: modes, min_weight_leaf and the 1e-4 decrease tolerance are judged without slack".into(),
+            "inexact weights: a leaf label is accepted iff its exact total >= max - 2 m u max (m rows in the leaf, u = 2^-24: two sequential f32 class sums of <= m terms; prune adds the slacks of the merged leaves, same bound); min_weight_leaf is violated only below the bound by more than 4 (m + 8) u W (total, left and right running f32 sums); the decrease tolerance grows by 480 m u (share error 2 m u W / W_side, gini <= 4d, entropy <= 8 d log2(1/d), weighted by W_side / W)".into(),
             format!("a reported impurity decrease must match the decrease recomputed in f64 from the rows routed to the node within {} (linfa accumulates in f32); reported >= min_impurity_decrease is compared exactly in the element type", oracle::TOL_F32),
             format!("importances: each finite and >= 0, sum = 1 +- {}, each within {} of the normalised mean reported decrease per feature; judged only when the tree has a split", oracle::TOL_SUM, oracle::TOL_F32),
             "fit-time routing is not observable directly: training rows are routed with the prediction rule (x[f] < split goes left) and every per-node statistic must hold on those row sets".into(),
@@ -369,13 +422,15 @@ pub fn property() -> Property {
         subs: vec![
             prop_sub("grid", 400000, 3000000, |t: Tier| case_strategy(Family::Grid, t), check)
                 .chunks(32)
-                .require(&["splits_2plus", "leaf_weighted_tie", "duplicates_conflicting_labels", "max_depth_none", "max_depth_0", "fractional_min_weight_split", "impure_leaf_with_floor_min_weight_split_rows", "col_major_multi_feature", "records_contiguous_not_standard_layout", "records_not_contiguous"]),
+                .require(&["splits_2plus", "leaf_weighted_tie", "duplicates_conflicting_labels", "max_depth_none", "max_depth_0", "fractional_min_weight_split", "impure_leaf_with_floor_min_weight_split_rows", "col_major_multi_feature", "records_contiguous_not_standard_layout", "records_not_contiguous", "weights_near_tie", "weights_real_valued", "weight_scale_below_1e-4", "weight_scale_above_1e2", "leaf_near_tie_heavier_label_not_smallest"]),
             prop_sub("adjacent_finite", 150000, 1000000, |t: Tier| case_strategy(Family::AdjFinite, t), check)
                 .chunks(16)
                 .require(&["adjacent_floats", "threshold_equals_training_value", "col_major_multi_feature", "records_contiguous_not_standard_layout"]),
             // max_depth(None) on consecutive floats can recurse without bound inside fit (stack overflow kills
             // the worker): one case per child process, so a crash costs exactly that case
             prop_sub("adjacent_unbounded", 64, 640, |t: Tier| case_strategy(Family::AdjUnbounded, t), check).chunks(640),
+            // one case per child process, like adjacent_unbounded: a phantom split recurses without bound under max_depth(None)
+            prop_sub("weight_residue", 200, 1500, |t: Tier| case_strategy(Family::Residue, t), check).chunks(1500),
             enum_sub(
                 "enum_grid",
                 |t: Tier| enumerate(Col::Grid { quarters: 4 }, 3, 3, t.pick(5, 6), &[None, Some(1), Some(2), None, Some(0)], true),
